@@ -121,9 +121,9 @@ func (st *Runtime) YieldBlock(name string, context interface{}) {
 		st.context = reflect.ValueOf(context)
 		st.executeList(block.List)
 		st.context = current
+	} else {
+		st.executeList(block.List)
 	}
-
-	st.executeList(block.List)
 }
 
 func (st *scope) getBlock(name string) (block *BlockNode, has bool) {
